@@ -154,6 +154,12 @@ def _vals(rng, shape, real, tdt):
     return torch.tensor(v, dtype=tdt).reshape(shape)
 
 
+def _shuffled(rng, d: dict) -> dict:
+    """Same mapping, random insertion order: a transform must follow ITS key order, not the dictionary's."""
+    items = list(d.items())
+    return {items[i][0]: items[i][1] for i in rng.permutation(len(items))}
+
+
 def _nt_shapes(shapes):
     nums = [P.numel(s) for s in shapes]
     eq = any(nums[i] == nums[j] and shapes[i] != shapes[j] for i in range(len(shapes)) for j in range(i))
@@ -202,7 +208,7 @@ def _diff_case(case, out):
     if unreachable:
         out.cls("unreachable-input")
     if case["kind"] == "grad":
-        res = out.call("raises:Grad", Grad(outs, ins, retain_graph=True), Gradients({o: c[0] for o, c in zip(outs, cots)}))
+        res = out.call("raises:Grad", Grad(outs, ins, retain_graph=True), Gradients(_shuffled(rng, {o: c[0] for o, c in zip(outs, cots)})))
         if res is RAISED:
             return
         out.check(set(res.keys()) == set(ins) and type(res) is Gradients, "grad-keys-type", f"{type(res).__name__}")
@@ -218,7 +224,7 @@ def _diff_case(case, out):
     k = case["chunk"]
     if k is not None and k < B:
         out.cls("batch>chunk")
-    J = out.call("raises:Jac", Jac(outs, ins, k, retain_graph=True), Jacobians({o: c for o, c in zip(outs, cots)}))
+    J = out.call("raises:Jac", Jac(outs, ins, k, retain_graph=True), Jacobians(_shuffled(rng, {o: c for o, c in zip(outs, cots)})))
     if J is RAISED:
         return
     out.check(set(J.keys()) == set(ins) and type(J) is Jacobians, "jac-keys-type", f"{type(J).__name__}")
@@ -300,7 +306,7 @@ def _dict_case(case, out):
         out.nontrivial = nt
         return
     if kind == "diag":
-        vals = {kk: _vals(rng, s, case["real"], tdt) for kk, s in zip(keys, shapes)}
+        vals = _shuffled(rng, {kk: _vals(rng, s, case["real"], tdt) for kk, s in zip(keys, shapes)})
         res = Diagonalize(keys)(Gradients(vals))
         n_tot = sum(P.numel(s) for s in shapes)
         out.check(set(res.keys()) == set(keys) and type(res) is Jacobians, "diag-keys-type", f"{type(res).__name__}")
@@ -320,7 +326,7 @@ def _dict_case(case, out):
         present = case["present"]
         dicts = []
         for row in present:
-            dicts.append({kk: _vals(rng, s, case["real"], tdt) for kk, s, p in zip(keys, shapes, row) if p})
+            dicts.append(_shuffled(rng, {kk: _vals(rng, s, case["real"], tdt) for kk, s, p in zip(keys, shapes, row) if p}))
         res = Stack([_Const(d) for d in dicts])(EmptyTensorDict())
         union = {kk for d in dicts for kk in d}
         out.check(set(res.keys()) == union and type(res) is Jacobians, "stack-keys-type", f"{len(res)} keys, {type(res).__name__}")
@@ -334,7 +340,7 @@ def _dict_case(case, out):
         out.nontrivial = len(dicts) >= 2 and any(not all(r) for r in present)
         return
     if kind == "select":
-        vals = {kk: _vals(rng, s, case["real"], tdt) for kk, s in zip(keys, shapes)}
+        vals = _shuffled(rng, {kk: _vals(rng, s, case["real"], tdt) for kk, s in zip(keys, shapes)})
         picked = [kk for kk, p in zip(keys, case["picked"]) if p]
         res = Select(picked, keys)(Gradients(vals))
         out.check(set(res.keys()) == set(picked) and type(res) is Gradients, "select-keys-type", f"{len(res)}")
@@ -345,7 +351,7 @@ def _dict_case(case, out):
     # aggregate
     rows = case["rows"]
     order = [keys[i] for i in case["order"]]
-    jacs = {kk: _vals(rng, [rows] + s, case["real"], tdt) for kk, s in zip(keys, shapes)}
+    jacs = _shuffled(rng, {kk: _vals(rng, [rows] + s, case["real"], tdt) for kk, s in zip(keys, shapes)})
     inner = PositionCoding() if rng.integers(0, 2) else jdcheck.aggs.make({"name": "Constant", "weights": (rng.integers(-3, 4, size=rows) + 0.5).tolist()}, dtype)
     rec = Recording(inner)
     res = out.call("raises:Aggregate", Aggregate(rec, order), Jacobians(jacs))
@@ -353,6 +359,9 @@ def _dict_case(case, out):
         return
     out.check(set(res.keys()) == set(keys) and type(res) is Gradients, "aggregate-keys-type", f"{type(res).__name__}")
     want = torch.cat([jacs[kk].reshape(rows, -1) for kk in order], dim=1)
+    if not out.check(len(rec.calls) == 1, "aggregate-aggregator-call-count",
+                     f"the aggregator was called {len(rec.calls)} times for a {rows}-row Jacobian"):
+        return
     M, r = rec.calls[0]
     out.check(M.shape == want.shape and torch.equal(M, want), "aggregate-matrix-layout",
               f"aggregator saw {M.tolist()}, expected the key_order concatenation {want.tolist()}")
